@@ -644,8 +644,8 @@ func c15CheckPosition(t []byte, off int, rep *Report, bucket string) {
 	if line != wl || col != wc {
 		rep.Violate("c15-linecol:"+trunc(key, 100), fmt.Sprintf("Position(%q, %d) = line %d col %d, counting breaks and code points gives line %d col %d", trunc(string(t), 200), off, line, col, wl, wc), replay)
 	}
-	// the line as the property text defines it ends at the next break of any of the five kinds;
-	// the implementation ends the context line at \n, \r or the end only
+	// the line ends at the next break of any of the five kinds.  Before /repo commit 14b37c1 the context ran
+	// on past U+2028/U+2029 (ended at \n, \r or the end only): that regression keeps its own stable key.
 	endProp, endImpl := s, s
 	for !c15BreakStartsAt(t, endProp, true) {
 		endProp++
@@ -655,9 +655,9 @@ func c15CheckPosition(t []byte, off int, rep *Report, bucket string) {
 	}
 	ci := utf8.RuneCount(t[ls:s])
 	prob, caretOnly := c15CheckContext(ctx, []rune(string(t[ls:endProp])), ci, wl)
-	if prob != "" && endProp != endImpl {
+	if prob != "" && !caretOnly && endProp != endImpl {
 		if p2, c2 := c15CheckContext(ctx, []rune(string(t[ls:endImpl])), ci, wl); p2 == "" || c2 {
-			// the only deviation is that U+2028/U+2029 do not end the context line
+			// regression of 14b37c1: the only deviation is that U+2028/U+2029 do not end the context line
 			rep.Violate("c15-context:ls-ps-not-terminator", fmt.Sprintf("Position(%q, %d): the context %q runs on past U+2028/U+2029, which Position itself counts as a line break", trunc(string(t), 200), off, ctx), replay)
 			prob, caretOnly = p2, c2
 		}
@@ -665,7 +665,7 @@ func c15CheckPosition(t []byte, off int, rep *Report, bucket string) {
 	if prob != "" {
 		switch {
 		case caretOnly && wl >= 100000:
-			rep.Violate("c15-caret:line>=100000", fmt.Sprintf("line %d: %s (the caret line assumes a 5-character line number): %q", wl, prob, ctx), replay)
+			rep.Violate("c15-caret:line>=100000", fmt.Sprintf("line %d: %s (regression of /repo commit a22851c: the caret line assumes a 5-character line number): %q", wl, prob, ctx), replay)
 		case caretOnly:
 			rep.Violate("c15-caret:"+trunc(key, 100), fmt.Sprintf("Position(%q, %d): %s: %q", trunc(string(t), 200), off, prob, ctx), replay)
 		default:
